@@ -284,6 +284,7 @@ class Layouts:
         self.enums = dict(STD_ENUMS)          # name -> [variant names]
         self.enum_fields = {}                 # (enum, variant) -> [field names] for struct-like variants
         self.structs = {}                     # name -> [field names]
+        self.enum_tuple_types = {}            # (enum, variant) -> [field type texts]
         self.qual = {}                        # short name -> set of module-qualified names
         raw = []
         for rel, text in sources.items():
@@ -307,6 +308,8 @@ class Layouts:
                         continue
                     vs.append(vm.group(1))
                     rest = part[vm.end():].strip()
+                    if rest.startswith("("):
+                        self.enum_tuple_types[(q(m.group(1)), vm.group(1))] = [re.sub(r"\s+", "", t) for t in self._split(rest[1:rest.rindex(")")]) if t.strip()]
                     if rest.startswith("{"):
                         self.enum_fields[(q(m.group(1)), vm.group(1))] = [re.match(r"(?:pub(?:\([^)]*\))?\s+)?(\w+)", re.sub(r"#\[[^\]]*\]", "", f, flags=re.S).strip()).group(1)
                                                                        for f in self._split(rest[1:rest.rindex("}")]) if f.strip()]
@@ -388,6 +391,7 @@ class Executor:
         self.fresh_n = 0
         self.depth = 0
         self.notes = []
+        self.bind_stack = [{}]
 
     # -------------------------------------------------------------------- solver helpers
     def assume(self, cond):
@@ -845,11 +849,21 @@ class Executor:
     # -------------------------------------------------------------------- calls
     def call(self, fr, callee, args):
         self.prog.stats["calls"] += 1
+        if self.bind_stack[-1]:
+            for pn, ty in self.bind_stack[-1].items():
+                callee = re.sub(r"(?<![A-Za-z0-9_:])" + pn + r"(?![A-Za-z0-9_])", ty, callee)
         h = self.h.override(self, callee, args) if self.h is not None else NotImplemented
         if h is not NotImplemented:
             return h
         target = self.prog.resolve(callee)
         if target is not None:
+            b = self.prog.last_bindings
+            if b:
+                self.bind_stack.append(b)
+                try:
+                    return self.call_func(target, args)
+                finally:
+                    self.bind_stack.pop()
             return self.call_func(target, args)
         from . import std
         r = std.call(self, callee, args)
@@ -871,6 +885,8 @@ class Executor:
 
     def call_closure(self, f, args):
         """Call a closure / fn item value with the given argument list."""
+        if isinstance(f, FnItem) and f.path.startswith("{closure@"):
+            f = Agg(f.path)
         if isinstance(f, FnItem):
             ev = self.enum_of(f.path)
             if ev:
@@ -980,6 +996,7 @@ class Program:
     # definition index -----------------------------------------------------------------------------
     def _index(self):
         self.by_norm = {}
+        self.generic_impls = {}   # (trait name, method) -> [(self regex, trait regex, params, Func)]
         self.bodies = {}          # coroutine / closure type text -> Func
         self.span_bodies = {}
         for name, f in self.funcs.items():
@@ -1023,7 +1040,43 @@ class Program:
             hdr = self._impl_header(m.group(1))
             rest = m.group(2)
             if hdr:
-                h = re.sub(r"^impl\s*(<[^>]*>)?\s*", "", hdr.strip())
+                params = []
+                gm = re.match(r"^impl\s*<", hdr.strip())
+                h = hdr.strip()[4:].strip()
+                if gm:
+                    # generic parameter list: balanced <...>
+                    depth, j = 0, 0
+                    for j, ch in enumerate(h):
+                        depth += {"<": 1, ">": -1}.get(ch, 0)
+                        if depth == 0:
+                            break
+                    plist = h[1:j]
+                    h = h[j + 1:].strip()
+                    depth, cur, parts = 0, [], []
+                    for ch in plist:
+                        if ch in "<(":
+                            depth += 1
+                        elif ch in ">)":
+                            depth -= 1
+                        if ch == "," and depth == 0:
+                            parts.append("".join(cur))
+                            cur = []
+                        else:
+                            cur.append(ch)
+                    parts.append("".join(cur))
+                    params = [re.match(r"\s*(\w+)", x).group(1) for x in parts if re.match(r"\s*\w", x) and not x.strip().startswith("'")]
+                if params and " for " in h and "{closure" not in rest:
+                    tr, ty = h.split(" for ", 1)
+                    def rx(t):
+                        t = re.escape(self._short(t))
+                        for pn in params:
+                            t = re.sub(r"(?<![A-Za-z0-9_])" + pn + r"(?![A-Za-z0-9_])", f"(?P<{pn}>.+)", t, count=1)
+                            t = re.sub(r"(?<![A-Za-z0-9_<])" + pn + r"(?![A-Za-z0-9_>])", f"(?P={pn})", t)
+                        return re.compile("^" + t + "$")
+                    try:
+                        self.generic_impls.setdefault((self._short(strip_generics(tr)), rest), []).append((rx(ty), rx(tr), params, self.funcs[name]))
+                    except re.error:
+                        pass
                 if " for " in h:
                     tr, ty = h.split(" for ", 1)
                     keys.append(("trait", self._short(tr), self._short(strip_generics(ty)), rest))
@@ -1033,7 +1086,8 @@ class Program:
         return keys
 
     def resolve(self, callee):
-        """Call-site path -> Func of the crate, or None."""
+        """Call-site path -> Func of the crate, or None. For a generic impl, self.last_bindings holds the type-parameter bindings."""
+        self.last_bindings = None
         c = callee.strip()
         if c in self.funcs:
             return self.funcs[c]
@@ -1046,6 +1100,16 @@ class Program:
                 fs = self.by_norm.get(key)
                 if fs and len(fs) == 1:
                     return fs[0]
+            hits = []
+            for srx, trx, params, f in self.generic_impls.get((self._short(strip_generics(tr)), meth), []):
+                m1, m2 = srx.match(self._short(ty)), trx.match(self._short(tr))
+                if m1 and m2:
+                    b = dict(m2.groupdict())
+                    b.update({k: v for k, v in m1.groupdict().items() if v is not None})
+                    hits.append((f, {k: v for k, v in b.items() if v is not None}))
+            if len(hits) == 1:
+                self.last_bindings = hits[0][1]
+                return hits[0][0]
             return None
         base = strip_generics(c)
         # path::<impl path::Type>::method[::{closure#n}]
